@@ -241,8 +241,8 @@ def run(rep, prop, which):
     tier, seed = rep.tier, rep.seed
     rng = random.Random(seed * 7919 + sum(map(ord, prop)))
     findings = [f for f in common.load_known() if f.get('status') == 'known']
-    n_random = {'quick': 250, 'thorough': 4000}[tier]
-    dfs_budget = {'quick': 12, 'thorough': 120}[tier]
+    n_random = {'quick': 500, 'thorough': 6000}[tier]
+    dfs_budget = {'quick': 30, 'thorough': 200}[tier]
     bound = {'quick': 2, 'thorough': 4}[tier]
     cases = []
     # corpus: the schedule of the documented deadlock of a guard-less worker (b = 1, close after 1)
